@@ -2,10 +2,11 @@
 C20 -- XSD generation mirrors the component's classes and data types.
 
 E1: breadth-first search over edit scripts (rename / retype / add attribute, add / reorder
-enumerators by R56 chain and, independently, by row order, add user types, move classes and
-data types between components and packages, rename classes) applied to the rows of the real
-model tests/resources/Simple_Model.xtuml (plain, and with a second component added) and of
-the synthesised bpsynth.rich_diagram; E3: every order of the rows.
+enumerators by R56 chain and, independently, by row order, add user types and structured
+data types, move classes and data types between components and packages, rename classes)
+applied to the rows of the real model tests/resources/Simple_Model.xtuml (plain, and with a
+second component added) and of the synthesised bpsynth.rich_diagram, packaging_diagram and
+structs_diagram; E3: every order of the rows.
 
 Reference: mc.refs.bpsynth.expected_xsd computed from the abstract diagram that is extracted
 from the rows by ids (independent of bridgepoint.gen_xsd_schema and ooaofooa).  In every state
@@ -29,14 +30,19 @@ ASSUMPTIONS = [
     '"Other"; the synthesised bpsynth.rich_diagram (two components, nested packages, global elements, user types over core / '
     'enumeration / user types, derived and unsupported attributes, referentials through two levels); and '
     'bpsynth.packaging_diagram (component > package > package > nested component > package > class, packages of a sibling '
-    'component and of the global scope referred to from inside the component, each with a class and a data type)',
+    'component and of the global scope referred to from inside the component, each with a class and a data type); and '
+    'bpsynth.structs_diagram (structured data types S_SDT with S_MBR members in the component, global and in a sibling component, '
+    'members of core / enumeration / user / structured type, user types over a structure and over a user type over a structure, '
+    'attributes typed by each, a referential attribute referring to a structure-typed identifier)',
     'scope: an element is in a component when the component is reached from its package / component through parents '
     '(R8000, R8001, R8003) and through packages that refer to a package on the way (R1402); chains of references '
     '(a referring package that is itself only referred to) are not generated',
     'edit scripts of length <= 2 (quick) / 3 (thorough) on Simple_Model and <= 1 / 2 on the rich diagram; values per site from '
     'small palettes rotated by VERIF_SEED',
     'supported types: the core types boolean, integer, real, string, unique_id, enumerations, and user types over them; '
-    'attributes of any other type (instance references, date over inst<Mapping>, ...) and derived attributes are not declared; '
+    'attributes of any other type (structured data types, user types that unwrap to one, instance references, date over '
+    'inst<Mapping>, ...) and derived attributes are not declared; a structured data type yields no declaration of its own (the '
+    'statement names simple types only); '
     'a user type is declared when its base is a supported core type, an enumeration or a user type',
     'the order of the xs:attribute declarations inside a class, of the class elements and of the simple types is not '
     'compared (the statement fixes only the order of enumerators)',
@@ -45,9 +51,9 @@ ASSUMPTIONS = [
     'gen_xsd_schema.main (0.25 s per call for parsing the ooaofooa schema) runs for every component in every state of depth '
     '<= 1 (thorough: <= 2); in every state the same serialisation steps (ElementTree.tostring + prettify) run on the tree '
     'returned by build_schema',
-    'live edits: on the loaded start model of the packaging diagram and of simple2 (thorough: also rich and Simple_Model) '
-    'every edit of the menu that has an API-level form (rename / retype attribute, move class or data type, add enumerator, '
-    'toggle derived, rename class) is applied with setattr / relate / unrelate / new / delete between two generations on '
+    'live edits: on the loaded start model of the packaging diagram, of the structs diagram and of simple2 (thorough: also rich '
+    'and Simple_Model) every edit of the menu that has an API-level form (rename / retype / add attribute, move class or data '
+    'type, add enumerator, toggle derived, rename class) is applied with setattr / relate / unrelate / new / delete between two generations on '
     'the SAME metamodel object; the second generation must equal expected_xsd of the edited diagram',
     'row orders: reversal of the whole file in every state; every rotation of the file and every permutation of every '
     'group of <= 6 rows of the tables the generator reads in the initial states; permutations of the groups of the edited '
@@ -56,34 +62,36 @@ ASSUMPTIONS = [
 ]
 
 PALETTES = [
-    dict(attr_names=['Renamed', 'Alt'], new_attr=['Extra', 'More'], enums=['E9', 'E0'], udt=['My_Type', 'My_Other'], kl=['Zed', 'Q2']),
-    dict(attr_names=['Value_9', 'x'], new_attr=['added', 'Plus'], enums=['Zero', 'AAA'], udt=['U1', 'U2'], kl=['KL9', 'K']),
-    dict(attr_names=['Table', 'Name2'], new_attr=['Index', 'N'], enums=['From', 'To'], udt=['Values', 'T'], kl=['Other_K', 'O']),
-    dict(attr_names=['ident', 'From'], new_attr=['a1', 'b2'], enums=['e', 'f'], udt=['u', 'v'], kl=['k', 'l']),
+    dict(attr_names=['Renamed', 'Alt'], new_attr=['Extra', 'More'], enums=['E9', 'E0'], udt=['My_Type', 'My_Other'], kl=['Zed', 'Q2'], struct=['Coords']),
+    dict(attr_names=['Value_9', 'x'], new_attr=['added', 'Plus'], enums=['Zero', 'AAA'], udt=['U1', 'U2'], kl=['KL9', 'K'], struct=['S9']),
+    dict(attr_names=['Table', 'Name2'], new_attr=['Index', 'N'], enums=['From', 'To'], udt=['Values', 'T'], kl=['Other_K', 'O'], struct=['Record']),
+    dict(attr_names=['ident', 'From'], new_attr=['a1', 'b2'], enums=['e', 'f'], udt=['u', 'v'], kl=['k', 'l'], struct=['s']),
 ]
-TYPES_QUICK = ['string', 'My_Enum', 'My_Integer', 'inst_ref<Object>', 'Colour', 'Price', 'date']
+TYPES_QUICK = ['string', 'My_Enum', 'My_Integer', 'inst_ref<Object>', 'Colour', 'Price', 'date', 'Position', 'Location']
 TYPES_THOROUGH = ['boolean', 'integer', 'real', 'string', 'unique_id', 'timestamp', 'date', 'inst_ref<Object>',
                   'inst_ref<Timer>', 'void', 'My_Enum', 'My_Integer', 'Colour', 'Money', 'Price', 'Shade', 'Hidden',
-                  'GlobalCount']
+                  'GlobalCount', 'Position', 'Location', 'Place', 'Segment', 'GPoint', 'HiddenStruct']
 XSD_TABLES = ('O_OBJ', 'O_ATTR', 'O_RATTR', 'O_BATTR', 'O_DBATTR', 'O_NBATTR', 'S_DT', 'S_EDT', 'S_UDT', 'S_ENUM', 'EP_PKG',
-              'C_C')
+              'C_C', 'S_SDT', 'S_MBR')
 TOUCHED = {
     'rename_attr': ['O_ATTR'], 'retype_attr': ['O_ATTR', 'S_DT', 'S_UDT'], 'add_attr': ['O_ATTR', 'O_BATTR', 'O_NBATTR'],
     'set_derived': ['O_BATTR', 'O_NBATTR', 'O_DBATTR', 'O_ATTR'], 'enum_add': ['S_ENUM'], 'enum_move': ['S_ENUM'],
     'row_move': ['S_ENUM'], 'add_udt': ['S_DT', 'S_UDT'], 'move_elem': ['O_OBJ', 'EP_PKG', 'C_C', 'S_DT'],
-    'rename_class': ['O_OBJ'], 'rename_comp': ['C_C'],
+    'rename_class': ['O_OBJ'], 'rename_comp': ['C_C'], 'add_struct': ['S_DT', 'S_SDT', 'S_MBR'],
 }
 # (base, palette level, edit depth, main() up to depth, reversed file up to depth, permutations: max group in single-edit
 #  states; 0 = initial state only, None = none) -- cheapest stage first
 PLAN = {
-    'quick': [('pack', 'lean', 1, 0, 99, None), ('simple2', 'quick', 1, 1, 99, 0), ('rich', 'quick', 1, 0, 99, 0),
+    'quick': [('pack', 'lean', 1, 0, 99, None), ('structs', 'quick', 1, 0, 99, None), ('simple2', 'quick', 1, 1, 99, 0), ('rich', 'quick', 1, 0, 99, 0),
               ('simple', 'quick', 2, 1, 99, 3)],
-    'thorough': [('pack', 'quick', 1, 1, 99, 4), ('simple2', 'quick', 2, 1, 99, 4), ('rich', 'lean', 2, 1, 99, 4), ('simple', 'lean', 3, 1, 2, 6),
+    'thorough': [('pack', 'quick', 1, 1, 99, 4), ('structs', 'quick', 2, 1, 99, 4), ('simple2', 'quick', 2, 1, 99, 4), ('rich', 'lean', 2, 1, 99, 4), ('simple', 'lean', 3, 1, 2, 6),
                  ('simple', 'full', 2, 0, 99, None)],
 }
 # start models on which every API-level ("live") edit of the menu is applied to the loaded metamodel
-LIVE = {'quick': [('pack', 'lean'), ('simple2', 'quick')],
-        'thorough': [('pack', 'quick'), ('simple2', 'quick'), ('rich', 'lean'), ('simple', 'full')]}
+LIVE = {'quick': [('pack', 'lean'), ('structs', 'quick'), ('simple2', 'quick')],
+        'thorough': [('pack', 'quick'), ('structs', 'quick'), ('simple2', 'quick'), ('rich', 'lean'), ('simple', 'full')]}
+# quick tier: on these start models only the attribute-level live edits run (the packaging-level ones run on the others)
+LIVE_ONLY = {'quick': {'structs': ('retype_attr', 'add_attr', 'set_derived', 'rename_attr')}, 'thorough': {}}
 TYPES_LEAN = ['My_Enum', 'inst_ref<Object>', 'Price']
 
 
@@ -109,6 +117,11 @@ class XsdModel(bp.EditModel):
         k = None if self.full else 1
         ops = []
         tnames = TYPES_THOROUGH if self.full else TYPES_LEAN if self.lean else TYPES_QUICK
+        if not self.lean:
+            tnames = list(tnames) + P['struct'][:1]        # (the structured data type an add_struct edit created)
+        # structured data types and user types that unwrap to one
+        structs = sorted(t.id for t in d.types.values() if t.kind == 'struct')
+        over_struct = sorted(t.id for t in d.types.values() if t.kind == 'user' and unwraps_to_struct(d, t.id))
         types = [t.id for n in tnames for t in sorted(d.types.values(), key=lambda t: t.id) if t.name == n]
         homes = self.homes(d)
         for c in d.classes:
@@ -139,6 +152,8 @@ class XsdModel(bp.EditModel):
                     enums = sorted(t.id for t in d.types.values() if t.kind == 'enum')
                     users = sorted(t.id for t in d.types.values() if t.kind == 'user' and d.xsd_base_type(t.id))
                     for t in ([] if self.lean else enums[:1]) + (users[-1:] if self.full else []):
+                        ops.append(['add_attr', c.id, pos, nm, t, 'base'])
+                    for t in [] if self.lean else structs[:1] + over_struct[:1]:
                         ops.append(['add_attr', c.id, pos, nm, t, 'base'])
             for h in homes:
                 if h != c.home:
@@ -179,12 +194,22 @@ class XsdModel(bp.EditModel):
             bases += [d.type_named(n).id for n in ('inst_ref<Object>', 'string', 'unique_id', 'date', 'timestamp')]
         if self.lean:
             bases = bases[1:]
+        else:
+            bases += structs[:1] + over_struct[:1]
         for nm in P['udt'][:1]:
             if nm in taken:
                 continue
             for b in bases:
                 for h in (homes[:2] if self.lean else homes):
                     ops.append(['add_udt', nm, b, h])
+        if not self.lean:
+            # a structured data type with a core-typed and an enumeration-typed (else integer) member
+            where = homes[:2] if (self.full or self.name == 'structs') else (homes[2:3] or homes[:1])
+            second = sorted(t.id for t in d.types.values() if t.kind == 'enum')[:1] or [d.type_named('integer').id]
+            for nm in P['struct'][:1]:
+                if nm not in taken:
+                    for h in where:
+                        ops.append(['add_struct', nm, [['x', d.type_named('real').id], ['k', second[0]]], h])
         if self.full:
             for c in sorted(d.conts.values(), key=lambda c: c.id):
                 if c.kind == 'comp' and 'Renamed_Comp' not in [x.name for x in d.conts.values()]:
@@ -213,6 +238,15 @@ class XsdModel(bp.EditModel):
         check_state(ctx, self, w, hist, routes, perm, live)
 
 
+def unwraps_to_struct(d, dt_id, depth=0):
+    t = d.types.get(dt_id)
+    if t is None or depth > 16:
+        return False
+    if t.kind == 'user':
+        return unwraps_to_struct(d, t.base, depth + 1)
+    return t.kind == 'struct'
+
+
 def components(d):
     return [c for c in sorted(d.conts.values(), key=lambda c: c.id) if c.kind == 'comp']
 
@@ -237,6 +271,8 @@ def allowed_change(op, dp, dc):
         out.add(('type', dc.types[op[1]].name))
     elif name == 'add_udt':
         out.add(('type', op[1]))
+    elif name == 'add_struct':
+        pass                    # a structured data type is not declared: nothing may change
     elif name == 'move_elem':
         if op[1] == 'class':
             out.add(('class', dc.cls(op[2]).kl))
@@ -268,6 +304,14 @@ def check_state(ctx, model, w, hist, routes=None, perm=None, live=None):
         ctx.distinct('nontrivial_inputs', key)        # anything but the unmodified Simple_Model.xtuml
     comps = components(d)
     ctx.count('states_checked')
+    if any(t.kind == 'struct' for t in d.types.values()):
+        ctx.count('states_with_structured_type')
+        if any(a.kind != 'ref' and unwraps_to_struct(d, a.dt) for c in d.classes for a in c.attrs):
+            ctx.count('states_with_structure_typed_attribute')
+    added = [i for i, op in enumerate(hist) if op[0] == 'add_struct']
+    if added and any((op[0] == 'add_attr' and unwraps_to_struct(d, op[4])) or (op[0] == 'retype_attr' and unwraps_to_struct(d, op[3]))
+                     for op in hist[added[0] + 1:]):
+        ctx.count('struct_after_add')
     expected = dict((c.id, bp.expected_xsd(d, c.id)) for c in comps)
 
     def bad(route, comp, fam, kind, msg, exp=None, obs=None):
@@ -489,7 +533,8 @@ def permute(w, perm):
 def live_tasks(model):
     '''One task per edit of the menu that has an API-level form, applied to the loaded start model.'''
     h0 = list(model.prefix)
-    ops = [op for op in model.menu(model.build(h0)) if bp.live_supported(op)]
+    only = LIVE_ONLY.get(model.tier, {}).get(model.name)
+    ops = [op for op in model.menu(model.build(h0)) if bp.live_supported(op, bp.LIVE_KINDS_ATTR) and (only is None or op[0] in only)]
     return [dict(base=model.name, level=model.level, hist=h0, live=op) for op in ops]
 
 
@@ -521,7 +566,7 @@ def run(ctx):
     if problems:
         raise core.HarnessError('bpsynth self-test failed: ' + '; '.join(problems))
     bp.load_model('')
-    for b in ('simple', 'rich', 'pack'):
+    for b in ('simple', 'rich', 'pack', 'structs'):
         bp.base_world(b)
     bp.prefix_of('simple2')
     total = 0
@@ -553,7 +598,7 @@ def run(ctx):
             return          # the property is already refuted; the remaining stages would only add more of the same
 
     for kind in ('rename_attr', 'retype_attr', 'add_attr', 'set_derived', 'enum_add', 'enum_move', 'row_move', 'add_udt',
-                 'move_elem', 'rename_class'):
+                 'move_elem', 'rename_class', 'add_struct'):
         ctx.require(ctx.n('edit:' + kind) >= 1, 'edit kind %s was never applied' % kind)
     ctx.require(total >= (800 if ctx.quick else 5000), 'too few states (%d)' % total)
     ctx.require(ctx.n('permutations_run') >= 300, 'too few row permutations (%d)' % ctx.n('permutations_run'))
@@ -562,8 +607,11 @@ def run(ctx):
     ctx.require(ctx.n('main_runs') >= 50, 'gen_xsd_schema.main ran only %d times' % ctx.n('main_runs'))
     ctx.require(ctx.nd('outcomes') >= 200, 'too few distinct schemas observed (%d)' % ctx.nd('outcomes'))
     ctx.require(ctx.n('locality_nonempty') >= 100, 'locality checks saw no change')
-    for kind in ('move_elem', 'rename_attr', 'retype_attr', 'enum_add'):
+    for kind in ('move_elem', 'rename_attr', 'retype_attr', 'enum_add', 'add_attr'):
         ctx.require(ctx.n('live:' + kind) >= 1, 'no live (API-level) edit of kind %s ran' % kind)
+    ctx.require(ctx.n('states_with_structure_typed_attribute') >= 200, 'too few states with an attribute typed by a structured data '
+                'type (%d)' % ctx.n('states_with_structure_typed_attribute'))
+    ctx.require(ctx.n('struct_after_add') >= 1, 'no attribute was typed by a structured data type added by an edit')
 
 
 def new_violations(ctx):
@@ -611,6 +659,9 @@ def coverage(ctx):
         live_runs=ctx.n('live_runs'),
         live_edits=dict((k[5:], v) for k, v in ctx.counts.items() if k.startswith('live:')),
         locality_checks=ctx.n('locality_checks'),
+        structured_types=dict(states_with_one=ctx.n('states_with_structured_type'),
+                              states_with_an_attribute_typed_by_one=ctx.n('states_with_structure_typed_attribute'),
+                              attribute_typed_by_one_added_by_an_edit=ctx.n('struct_after_add')),
         edits=dict((k[5:], v) for k, v in ctx.counts.items() if k.startswith('edit:')),
         bounds=dict(plan=[dict(base=p[0], palette=p[1], edit_depth=p[2], main_up_to_depth=p[3], reversed_up_to_depth=p[4])
                           for p in PLAN[ctx.tier]],
